@@ -172,6 +172,9 @@ def run(ctx) -> Result:
     C19.check_equivalence(res, proj, False, "K4")
     check_unified(res, proj, "K5")
     res.not_decided.append("numeric value of the Kemeny score of each candidate (C01)")
+    if not res.violations:      # the end-to-end pass adds nothing to an established violation (and may not terminate on it)
+        from . import e2e
+        e2e.check(res, ctx.proj, "C10", ctx.thorough)
     return res
 
 
